@@ -443,7 +443,7 @@ func genParserCases(focus string) func(r *rand.Rand, tier string, env *Env) []Ca
 			// subject of include-except
 			empty := [][]byte{{}, {}, {}, {}, {}, {}}
 			inc := map[string]string{"only-flags": "##! shared flags\n##!+ i\n", "only-prefix": "##!^ pre\n", "only-suffix": "##!$ suf\n", "only-both": "##!^ p\n##!$ s\n",
-				"only-comment": "##! nothing here\n\n", "nothing": "", "outer-flags": "##!> include only-flags\n", "outer-prefix": "##!> include only-prefix\n", "only-define": "##!> define k v\n"}
+				"only-comment": "##! nothing here\n\n", "nothing": "", "sfx-blank": "##!$ x\nfoo\nbar \n", "pfx-tab": "##!^ p\nfoo\nbar\t\n", "affix-ff": "##!^ p\n##!$ s\n\fbar\nbaz\u00a0\n", "outer-flags": "##!> include only-flags\n", "outer-prefix": "##!> include only-prefix\n", "only-define": "##!> define k v\n"}
 			var files [][]byte
 			var names []string
 			for k := range inc {
@@ -463,6 +463,26 @@ func genParserCases(focus string) func(r *rand.Rand, tier string, env *Env) []Ca
 					args := append(append(append([][]byte{}, empty...), []byte(prog)), files...)
 					cases = append(cases, Case{Kind: "textless-include", Ops: []Op{{"parse.run", args[6:]}, {"gen.run", args}}, Oracles: []Op{{"parser.inline", args}}})
 				}
+			}
+		}
+		if focus == "defs" || focus == "include" {
+			// definitions of the including file reach the text of included files — also when the including file has
+			// no reference on its own lines, and when the only references are to names nobody defines
+			empty := [][]byte{{}, {}, {}, {}, {}, {}}
+			files := [][]byte{[]byte("i"), []byte("usesouter.ra"), []byte("foo{{num}}\nbar{{word}}{{num}}\n"), []byte("i"), []byte("deeper.ra"), []byte("##!> include usesouter\nqux{{word}}\n"),
+				[]byte("e"), []byte("skip.ra"), []byte("bar{{word}}{{num}}\n")}
+			for _, prog := range []string{
+				"##!> define num [0-9]+\n##!> define word [a-z]{2,3}\n##!> include usesouter\nbaz\n",
+				"##!> include usesouter\n##!> define num [0-9]+\n##!> define word [a-z]{2,3}\n",
+				"##!> define num 7\n##!> define word w\n##!> include deeper\n",
+				"##!> define num 7\n##!> define word w\n##!> assemble\n##!> include usesouter\n##!=>\nz\n##!<\n",
+				"##!> define num 7\n##!> define word w\n##!> include-except usesouter skip\n",
+				"##!> define num 7\n##!> include usesouter\nliteral{{nosuch}}\n",
+				"##!> define unused 1\n##!> include usesouter\nplain\n",
+			} {
+				args := append(append(append([][]byte{}, empty...), []byte(prog)), files...)
+				c := Case{Kind: "outer-definitions-in-include", Ops: []Op{{"parse.run", args[6:]}, {"gen.run", args}}, Oracles: []Op{{"parser.inline", args}}}
+				cases = append(cases, c)
 			}
 		}
 		for i := 0; i < n; i++ {
